@@ -305,6 +305,10 @@ func cmdCheck(args []string) {
 	}
 	// 2. property-specific extra engines (frame calculus, bounded stand-ins)
 	runExtras(p, rep, outDir, *repo, work)
+	// 3. thorough tier: witnesses of the recorded findings against the real code
+	if *tier == "thorough" {
+		runWitnesses(rep, known, prop, *repo, vdir, outDir, work)
+	}
 
 	rep.wall = time.Since(t0).Seconds()
 	writeEvidence(outDir, rep)
